@@ -324,7 +324,10 @@ _C04_TAIL = [H("stunrs", MSG + n, tier=t, timeout=1800, mem_gb=12, covers=None, 
                bounds="message = PRIORITY(symbolic) + tail %s; method/class/transaction id symbolic; MAC/CRC values symbolic" % n.split("tail_")[1],
                funcs=["MessageEncoder::encode", "MessageIntegrity::post_encode", "MessageIntegritySha256::post_encode", "Fingerprint::post_encode", "raw::get_input_text"])
              for (n, t) in (("c04_tail_mi", "quick"), ("c04_tail_sha", "quick"), ("c04_tail_mi_sha", "thorough"), ("c04_tail_mi_fp", "quick"), ("c04_tail_sha_fp", "thorough"), ("c04_tail_mi_sha_fp", "thorough"))]
-prop("C04", _C04_RAW,
+KEYREC = "HMACKey::get_key (MD5 / SHA-256 of the key text) -> get_key_rec (records the text it is handed); strings::opaque_string_prepapre / opaque_string_enforce -> models that make the two distinguishable: preparation validates only, enforcement also rewrites one designated character ('~' -> '-', standing for any code point OpaqueString enforcement maps or normalises); alloc::fmt::format is NOT stubbed in this query (the real format! builds the text)"
+_C04_KEY = [H("stunrs", ATT + "c04_long_term_key_text", tier="thorough", timeout=2400, mem_gb=14, covers=None, stubs=[KEYREC], playback=False,
+              bounds="one-character user, realm and password, every printable ASCII value each", funcs=["HMACKey::new_long_term", "alloc::fmt::format (real)"])]
+prop("C04", _C04_RAW + _C04_KEY,
      outside="HMAC-SHA1 / HMAC-SHA256 / MD5 / SHA-256 primitives, their argument order inside the primitive crates, and the long-term key derivation string (assumed; covered by the RFC 5769/8489 vectors of the existing suite); 'no other key or message yields this MAC' is a cryptographic assumption; buffers > 44 bytes for the walker, tails beyond one ordinary attribute",
      assumptions=["HMAC is a secure MAC: two different inputs or keys do not collide"])
 DESCR["C04"] = {
@@ -509,7 +512,20 @@ _C18C = [H("stunrs", CTX + n, tier=t, timeout=2400, mem_gb=14, covers=None, stub
     ("c18c_default_fp_prio", "quick", "36-byte message FINGERPRINT, PRIORITY", "default context"),
     ("c18c_not_ignore_fp_prio", "thorough", "36-byte message FINGERPRINT, PRIORITY", "not_ignore"),
     ("c18c_noctx_prio_fp_unk", "thorough", "44-byte message PRIORITY, FINGERPRINT, unknown 0x7F02", "no context"),
-    ("c18c_not_ignore_prio_fp_unk", "thorough", "44-byte message PRIORITY, FINGERPRINT, unknown 0x7F02", "not_ignore"))]
+    ("c18c_not_ignore_prio_fp_unk", "thorough", "44-byte message PRIORITY, FINGERPRINT, unknown 0x7F02", "not_ignore"),
+    ("c18c_unknown_data_one", "thorough", "28-byte message with one unknown attribute 0x7F02", "with_unknown_data"),
+    ("c18c_unknown_nodata_one", "thorough", "28-byte message with one unknown attribute 0x7F02", "default context"))]
+FPANY = "Fingerprint::validate -> fp_validate_any (arbitrary verdict per call, calls counted) and raw::get_input_text -> input_text_empty: the CRC primitive and the input selection are environment here (decided in C10/C04); what is decided is which attributes the decoder submits to validation and what a verdict does to the result"
+_C18V = [H("stunrs", CTX + n, tier=t, timeout=2400, mem_gb=14, covers=None, stubs=[NOFMT, TID, REGSMALL, BUILDREC, FPANY], playback=False,
+           bounds="36-byte message %s; attribute TYPES concrete, all value bytes / method / class / transaction id symbolic, both validation verdicts symbolic; decoder options: %s" % (pat, opt),
+           funcs=["MessageDecoder::decode", "context::validate_attribute", "context::ignore_attribute", "RawMessage::decode", "RawAttributesIter::next"])
+         for (n, t, pat, opt) in (
+    ("c18v_validate_fp_prio", "thorough", "FINGERPRINT, PRIORITY", "with_validation"),
+    ("c18v_validate_not_ignore_fp_prio", "thorough", "FINGERPRINT, PRIORITY", "with_validation + not_ignore"),
+    ("c18v_validate_fp_fp", "thorough", "FINGERPRINT, FINGERPRINT", "with_validation"),
+    ("c18v_validate_not_ignore_fp_fp", "thorough", "FINGERPRINT, FINGERPRINT", "with_validation + not_ignore"),
+    ("c18v_novalidate_fp_fp", "thorough", "FINGERPRINT, FINGERPRINT", "default context"))]
+_C18C += _C18V
 prop("C18", [H("stunrs", CTX + "c18_registry_small_agrees", timeout=300, mem_gb=3, covers=None, bounds="7 type codes", funcs=["registry (generated)"])] + _C18C,
      outside="validation-on vs validation-off (needs MAC/CRC primitives on symbolic buffers); with_unknown_data (the query with a stored unknown value ran out of memory); symbolic attribute types / other layouts (11-19 GB); only the two concrete type patterns listed are decided",
      assumptions=["the decoded attributes are observed where the decoder hands them to StunMessageBuilder::with_attribute (recording stub)"])
